@@ -295,8 +295,8 @@ func (w *writer) listLen() int {
 		return 0
 	}
 
-	start := list.start
-	return w.elements.len(start)
+	tableStart := list.tableStart
+	return w.elements.len(tableStart)
 }
 
 func (w *writer) endElement() ([]byte, error) {
